@@ -327,6 +327,10 @@ def feat_case(ctx, rng, i, engine, fld_pool, cls_pool):
         return None
     case = {'feat': spec, 'names': names}
     ctx.seen('feat:' + engine, case)
+    if set(names['text']) & set(names['fields']):
+        ctx.count('dim:feat-alias-spelled-like-a-field')
+    if any(f['feat'] == 'skip_user' for f in spec['fields']):
+        ctx.count('dim:feat-operand-of-user-type')
     base = feat15.benign_names(spec)
     try:
         a = feat15.Side(spec, base)
@@ -436,6 +440,21 @@ def rename(root, rng, fld_pool, cls_pool):
             # the names of aliased fields must stay clear of the other fields' spellings
             fm = dict(zip(olds, news))
             maps['fields'][bind] = fm
+            # an alias may be spelled like a field of the same class: the first alias of an aliased field becomes the (new)
+            # python name of an aliased field of this class (another one or itself; the own name of an aliased field is not a
+            # key of the documents here — dump uses the alias —, so the keys of a document stay distinct).  Own generator,
+            # seeded by the renaming: the shared stream is not touched.
+            aliased = [f for f in info['fields'] if f.get('load_keys')]
+            arng = random.Random('C15:alias-as-field:' + C.canon([bind, fm]))
+            # (default engine only: below a v1 root the json_field aliases of the type grammar are not read at all, there the
+            # own name of the field IS the key and an alias spelled like it would change the structure)
+            if aliased and arng.random() < 0.5 and not (root['info'].get('meta') or {}).get('v1'):
+                targets = [fm[f['name']] for f in aliased]
+                arng.shuffle(targets)
+                for f, nm_ in zip(aliased, targets):
+                    k0 = f['load_keys'][0]
+                    if k0 not in maps['text'] and nm_ not in maps['text'].values() and arng.random() < 0.85:
+                        maps['text'][k0] = nm_
             for f in info['fields']:
                 f['name'] = fm[f['name']]
                 if f.get('load_keys'):
@@ -838,6 +857,8 @@ def run(ctx: C.Ctx):
                             continue
                         case = {'engine': engine, 'ty': M, 'pynames': maps['pynames'], 'fields': maps['fields'], 'text': maps['text']}
                         ctx.seen('rename:' + engine, case)
+                        if set(maps['text'].values()) & {n for fm in maps['fields'].values() for n in fm.values()}:
+                            ctx.count('dim:alias-spelled-like-a-field')
                         det = {'src': b.built.source[-6000:], 'base_src': a.built.source[-3000:]}
                         xr = transport(x, a, b, maps)
                         da = outcome_dump(lambda: asdict(x))
